@@ -304,9 +304,9 @@ def launch_fn(kname, params, mode, cap):
     decl = ', '.join(['unsigned long *outer', 'unsigned long *inner', 'int od', 'int id'] + ps)
     return '''
 static void LAUNCH_%(k)s(%(decl)s) {
-  for (int d = 0; d < 3; d++) if (outer[d] == 0 || inner[d] == 0) return;       /* empty grid: nothing runs */
-  for (int d = 0; d < 3; d++) if ((long) outer[d] < 0 || (long) inner[d] < 0) { launch_negative = 1; }      /* a negative count stored into the unsigned occa::dim */
-  for (int d = 0; d < 3; d++) if (outer[d] > %(cap)d || inner[d] > %(cap)d) { launch_overflow = 1; return; }
+  if (outer[0] == 0 || outer[1] == 0 || outer[2] == 0 || inner[0] == 0 || inner[1] == 0 || inner[2] == 0) return;       /* empty grid: nothing runs */
+  if ((long) outer[0] < 0 || (long) outer[1] < 0 || (long) outer[2] < 0 || (long) inner[0] < 0 || (long) inner[1] < 0 || (long) inner[2] < 0) launch_negative = 1;   /* a negative count stored into the unsigned occa::dim */
+  if (outer[0] > %(cap)d || outer[1] > %(cap)d || outer[2] > %(cap)d || inner[0] > %(cap)d || inner[1] > %(cap)d || inner[2] > %(cap)d) { launch_overflow = 1; return; }
   gridDim.x = outer[0]; gridDim.y = outer[1]; gridDim.z = outer[2]; blockDim.x = inner[0]; blockDim.y = inner[1]; blockDim.z = inner[2];
   for (unsigned bz = 0; bz < outer[2]; bz++) for (unsigned by = 0; by < outer[1]; by++) for (unsigned bx = 0; bx < outer[0]; bx++)
     for (unsigned tz = 0; tz < inner[2]; tz++) for (unsigned ty = 0; ty < inner[1]; ty++) for (unsigned tx = 0; tx < inner[0]; tx++) {
@@ -374,6 +374,8 @@ class Prog:
         self.excl_post = {}         # known-finding key -> C predicate over harness state after both runs
         self.mid_assumes = []       # assumptions over the reference run's result (placed before the translated code runs)
         self.post_assumes = []
+        self.post_asserts = []      # extra C statements (VASSERTs) after the comparison
+        self.globals = ''           # extra C declarations for the harness
 
 
 VISIT = r'''
@@ -381,11 +383,11 @@ VISIT = r'''
  * is a symbolic input, so "the watched tuple is visited equally often by both, and the totals agree" for ALL
  * watched tuples is multiset equality of the visited iterator values. ---- */
 #define REFCAP %(refcap)d
-static long wa, wb, wc; static int nvis[2], nwatch[2]; static int which;
+static long wa, wb, wc; static int nvis[2], nwatch[2]; static int which; static long lastv[2][3];
 static void rec3(void *out, long a, long b, long c) {
   if (which == 0) { if (nvis[0] >= REFCAP) { __CPROVER_assume(0); } }        /* stated bound on the sequential trip count */
   else if (nvis[1] >= REFCAP + 1) { VASSERT(0, "translated code executes more iterations than the sequential loop"); __CPROVER_assume(0); }
-  nvis[which]++;
+  nvis[which]++; lastv[which][0] = a; lastv[which][1] = b; lastv[which][2] = c;
   if (a == wa && b == wb && c == wc) nwatch[which]++;
 }
 static void rec(void *out, long a, long b) { rec3(out, a, b, 0); }
@@ -397,6 +399,7 @@ def visit_harness(prog, mode, tr_text, active_excl=()):
     a.append('/* program %s mode %s : %s */' % (prog.name, mode, prog.desc))
     a.append(PRELUDE)
     a.append(VISIT % dict(refcap=prog.refcap))
+    a.append(prog.globals)
     ref = prog.ref if prog.ref is not None else strip_attrs(prog.okl)
     names = function_names(ref)
     a.append('/* ---- reference: the OKL source read sequentially ---- */')
@@ -407,7 +410,7 @@ def visit_harness(prog, mode, tr_text, active_excl=()):
     call = []
     for (ct, nm, lo, hi) in prog.args:
         if '*' in ct:
-            call.append('0'); continue
+            call.append(lo if isinstance(lo, str) else '0'); continue
         m.append('  IN(%s, %s);' % (ct, nm))
         if lo is not None:
             m.append('  VASSUME(%s >= %s && %s <= %s);' % (nm, lo, nm, hi))
@@ -417,7 +420,12 @@ def visit_harness(prog, mode, tr_text, active_excl=()):
         m.append('  VASSUME(%s);' % s)
     for k in active_excl:
         if k in prog.excl:
-            m.append('  VASSUME(!(%s));   /* known finding %s excluded */' % (prog.excl[k], k))
+            pred = prog.excl[k]
+            if isinstance(pred, (list, tuple)):        # (predicate, modes it applies to)
+                if mode not in pred[1]:
+                    continue
+                pred = pred[0]
+            m.append('  VASSUME(!(%s));   /* known finding %s excluded */' % (pred, k))
     m.append('  which = 0; ref_%s(%s);' % (prog.kernel, ', '.join(call)))
     for s in prog.mid_assumes:
         m.append('  VASSUME(%s);' % s)
@@ -431,6 +439,8 @@ def visit_harness(prog, mode, tr_text, active_excl=()):
     m.append('  VASSERT(!launch_overflow, "a launch dimension exceeds the bound although the sequential trip counts are within it");')
     m.append('  VASSERT(nvis[0] == nvis[1], "number of executed iterations equals the sequential trip count");')
     m.append('  VASSERT(nwatch[0] == nwatch[1], "every iterator value is visited exactly as often by the translation as by the sequential loop");')
+    for s in prog.post_asserts:
+        m.append('  ' + s)
     m.append('  VREACH();')
     m.append('  return 0;')
     m.append('}')
@@ -483,13 +493,13 @@ def make_queries(ctx, progs, modes, harness_fn, known_keys=(), timeout=120, jobs
 
 
 def prog_to_meta(p):
-    return {k: getattr(p, k) for k in ('name', 'okl', 'kernel', 'args', 'refcap', 'desc', 'assumes', 'excl', 'ref', 'cap', 'arrays', 'unwind', 'excl_post', 'mid_assumes', 'post_assumes')}
+    return {k: getattr(p, k) for k in ('name', 'okl', 'kernel', 'args', 'refcap', 'desc', 'assumes', 'excl', 'ref', 'cap', 'arrays', 'unwind', 'excl_post', 'mid_assumes', 'post_assumes', 'post_asserts', 'globals')}
 
 
 def prog_from_meta(m):
     p = Prog(m['name'], m['okl'], m['kernel'], [tuple(a) for a in m['args']], m['refcap'], m.get('desc', ''), m.get('assumes', ()), m.get('excl'), m.get('ref'),
              m.get('cap', 6), [tuple(a) for a in (m.get('arrays') or [])], m.get('unwind'))
-    p.excl_post = m.get('excl_post') or {}; p.mid_assumes = m.get('mid_assumes') or []; p.post_assumes = m.get('post_assumes') or []
+    p.excl_post = m.get('excl_post') or {}; p.mid_assumes = m.get('mid_assumes') or []; p.post_assumes = m.get('post_assumes') or []; p.post_asserts = m.get('post_asserts') or []; p.globals = m.get('globals') or ''
     return p
 
 
@@ -502,3 +512,26 @@ def replay_query(ctx, meta, pid):
     if not qs:
         raise C.Inconclusive('program no longer accepted by occa: %s' % rej)
     return qs[0]
+
+
+def known_reconfirm(ctx, progs, known, harness_fn, timeout=150):
+    """one query per listed finding on the first program it applies to, WITHOUT the exclusion: must still fail
+    (then the check prints KNOWN-FINDING); returns the queries (expect='fail')."""
+    out = []
+    for key, text in known.items():
+        for p in progs:
+            mode = None
+            if key in p.excl_post:
+                mode = 'CUDA'
+            elif key in p.excl:
+                pred = p.excl[key]
+                mode = pred[1][0] if isinstance(pred, (list, tuple)) else 'CUDA'
+            if mode is None:
+                continue
+            kq, _ = make_queries(ctx, [p], [mode], harness_fn, known_keys=[k for k in known if k != key], timeout=timeout)
+            for q in kq:
+                q.name += '/known:' + key; q.expect = 'fail'; q.known = 'key=%s %s' % (key, text)
+            if kq:
+                out += kq[:1]
+                break
+    return out
